@@ -152,7 +152,7 @@ func runC01(c *kit.Ctx) {
 				return
 			}
 			good := false
-			switch v := r.Results[0].(type) {
+			switch v := kit.Res(r, 0).(type) {
 			case *ssa.Call:
 				// i.RegionSpecifier() with i = b.region.(interface{...})
 				if ex, ok := v.Call.Value.(*ssa.Extract); ok {
@@ -314,7 +314,7 @@ func runC01(c *kit.Ctx) {
 				if ev == nil || !kit.IsNilConst(kit.Root(ev)) {
 					return
 				}
-				leaves := []ssa.Value{kit.Root(r.Results[0])}
+				leaves := []ssa.Value{kit.Root(kit.Res(r, 0))}
 				if ph, ok := leaves[0].(*ssa.Phi); ok {
 					leaves = kit.PhiLeaves(ph)
 				}
@@ -376,7 +376,7 @@ func runC01(c *kit.Ctx) {
 				if !ok || !strings.Contains(kit.CalleeName(call), "modernc.org/b/v2.Tree[") || !strings.HasSuffix(kit.CalleeName(call), ".Seek") {
 					return
 				}
-				key := kit.Root(call.Call.Args[1])
+				key := rootThroughHelpers(p, call.Call.Args[1])
 				good := false
 				if k, ok := key.(*ssa.Call); ok && kit.StaticCallee(k) == csk {
 					good = true
@@ -406,12 +406,16 @@ func runC01(c *kit.Ctx) {
 			if !ok || kit.CalleeName(call) != "builtin.append" {
 				return
 			}
-			if x := elemOfVariadic(call.Call.Args[1]); x != nil {
-				if k, ok := kit.ConstInt(x); ok {
-					consts = append(consts, k)
-					order = append(order, fmt.Sprintf("%q", rune(k)))
-					return
+			if xs := elemsOfVariadic(call.Call.Args[1]); xs != nil {
+				for _, x := range xs {
+					if k, ok := kit.ConstInt(x); ok {
+						consts = append(consts, k)
+						order = append(order, fmt.Sprintf("%q", rune(k)))
+					} else {
+						order = append(order, kit.Path(x))
+					}
 				}
+				return
 			}
 			order = append(order, kit.Path(call.Call.Args[1]))
 		})
@@ -445,29 +449,34 @@ func runC01(c *kit.Ctx) {
 		if n == 0 {
 			c.Unk(nil, "tree-order", token.NoPos, "no initialisation of keyRegionCache.regions found")
 		}
-		// get: Seek then Prev on the same enumerator, result returned
+		// get: Seek then Prev on the same enumerator, result returned (the walk may live in a helper
+		// that get alone calls)
 		seeks := 0
 		good := false
-		kit.Instrs(kget, func(in ssa.Instruction) {
-			call, ok := in.(*ssa.Call)
-			if !ok || !strings.HasSuffix(kit.CalleeName(call), ".Seek") {
-				return
-			}
-			seeks++
-			enum := kit.ExtractOf(call, 0)
-			kit.Instrs(kget, func(x ssa.Instruction) {
-				pc, ok := x.(*ssa.Call)
-				if !ok || !strings.HasSuffix(kit.CalleeName(pc), ".Prev") || pc.Call.Args[0] != enum {
+		for _, f := range withHelpers(p, kget) {
+			kit.Instrs(f, func(in ssa.Instruction) {
+				call, ok := in.(*ssa.Call)
+				if !ok || !strings.HasSuffix(kit.CalleeName(call), ".Seek") {
 					return
 				}
-				v := kit.ExtractOf(pc, 1)
-				kit.Instrs(kget, func(y ssa.Instruction) {
-					if r, ok := y.(*ssa.Return); ok && len(r.Results) == 2 && r.Results[1] == v {
-						good = true
+				seeks++
+				enum := kit.ExtractOf(call, 0)
+				kit.Instrs(f, func(x ssa.Instruction) {
+					pc, ok := x.(*ssa.Call)
+					if !ok || !strings.HasSuffix(kit.CalleeName(pc), ".Prev") || pc.Call.Args[0] != enum {
+						return
 					}
+					v := kit.ExtractOf(pc, 1)
+					kit.Instrs(kget, func(y ssa.Instruction) {
+						if r, ok := y.(*ssa.Return); ok && len(r.Results) == 2 && !kit.IsNilConst(kit.Root(kit.Res(r, 1))) {
+							if resultFlowsFrom(kit.Res(r, 1), func(z ssa.Value) bool { return z == v }, 0) {
+								good = true
+							}
+						}
+					})
 				})
 			})
-		})
+		}
 		c.Check(good && seeks == 1, kget, "predecessor", kget.Pos(), "get seeks to the key and returns the previous entry", "keyRegionCache.get no longer returns the predecessor of the search key")
 	}
 }
@@ -531,7 +540,7 @@ func lookupValidators(c *kit.Ctx, grc, ml *ssa.Function) {
 		nRet := 0
 		kit.Instrs(v.fn, func(in ssa.Instruction) {
 			r, ok := in.(*ssa.Return)
-			if !ok || !kit.Same(r.Results[0], R) {
+			if !ok || !kit.Same(kit.Res(r, 0), R) {
 				return
 			}
 			nRet++
